@@ -53,7 +53,20 @@ TClose ==
     /\ Rec[l].total = Expected
     /\ UNCHANGED <<clock, grp, sum, any>>
 
-TNext_ == TReset \/ TAdvance \/ TStart \/ TDone \/ TClear \/ TClose
+\* The creating thread closed &stopwatch WHILE the other threads were completing their guards (logged
+\* before the phase's Done events: `sum` is still the total before the phase).  lo = span ticks of the
+\* kept completions that had returned before the close started, hi = of those that had been started
+\* before the close returned.  The reported value must lie in that window - in particular it is not
+\* "nothing" once a kept completion has returned, or when there was a total before the phase.
+TCloseDuring ==
+    /\ Ev("CloseDuring") /\ Adv
+    /\ Rec[l].lo <= Rec[l].hi
+    /\ IF Rec[l].total = -1 THEN ~any /\ Rec[l].lo = 0
+       ELSE /\ Rec[l].total >= sum + Rec[l].lo /\ Rec[l].total <= sum + Rec[l].hi
+            /\ (any \/ Rec[l].hi > 0)
+    /\ UNCHANGED <<clock, grp, sum, any>>
+
+TNext_ == TReset \/ TAdvance \/ TStart \/ TDone \/ TClear \/ TClose \/ TCloseDuring
 TSpec == TInit /\ [][TNext_]_tvars
 
 Track ==
